@@ -125,10 +125,34 @@ def gen_history(seed, idx, tier):
             ops.append(["obj", name, key, rs.bits(w)])
             objs.append((name, w, kind, qk))
         elif c < 18:
-            src, w, kind, qk = rs.choice(objs)
+            # half of the views are taken from one of the newest objects, so that views of views of views (a cast of a slice
+            # of a cast ...) are common
+            src, w, kind, qk = rs.choice(objs[-3:]) if rs.below(2) else rs.choice(objs)
             name = f"o{nobj}"
             nobj += 1
             if kind == "Bit":
+                continue
+            if w >= 3 and rs.below(5) == 0:
+                # a whole chain at once: slice -> .unsigned/.signed -> .bitvector -> bit or slice of that
+                lo = rs.below(w - 1)
+                hi = rs.range(lo + 1, w - 1)
+                cw = hi - lo + 1
+                n1, n2, n3, n4 = (f"o{nobj + i}" for i in range(-1, 3))
+                nobj += 3
+                cast = rs.choice(["unsigned", "signed"])
+                ops.append(["view", n1, src, "slice", hi, lo])
+                ops.append(["view", n2, n1, cast])
+                ops.append(["view", n3, n2, "bitvector"])
+                objs += [(n1, cw, "BV", qk), (n2, cw, "U" if cast == "unsigned" else "S", qk), (n3, cw, "BV", qk)]
+                if rs.below(2):
+                    i = rs.below(cw)
+                    ops.append(["view", n4, n3, "index", i])
+                    objs.append((n4, 1, "Bit", qk))
+                else:
+                    l2 = rs.below(cw)
+                    h2 = rs.range(l2, cw - 1)
+                    ops.append(["view", n4, n3, "slice", h2, l2])
+                    objs.append((n4, h2 - l2 + 1, "BV", qk))
                 continue
             v = rs.below(8)
             if v < 3 and w >= 1:
